@@ -663,11 +663,27 @@ fn longest_backtick_run(text: &str) -> usize {
 }
 
 pub fn blocks_to_markdown_and(blocks: &Blocks, sparce: bool, options: &MarkdownOptions) -> String {
-    blocks
-        .iter()
-        .map(|block| block.to_markdown(options))
-        .collect::<Vec<String>>()
-        .join(if sparce { "\n" } else { "" })
+    let mut markdown = String::new();
+    for (n, block) in blocks.iter().enumerate() {
+        if n > 0 && (sparce || needs_blank_line(&blocks[n - 1], block)) {
+            markdown.push('\n');
+        }
+        markdown.push_str(&block.to_markdown(options));
+    }
+    markdown
+}
+
+// blocks that would be read as part of the block before them when they follow it directly: a rule
+// under text is a setext heading underline, whatever follows a table is one more row of it, and
+// text after a quote or a nested list continues the last paragraph of that quote or list
+fn needs_blank_line(previous: &GraphBlock, block: &GraphBlock) -> bool {
+    match previous {
+        GraphBlock::Table(_, _, _)
+        | GraphBlock::BlockQuote(_)
+        | GraphBlock::BulletList(_)
+        | GraphBlock::OrderedList(_) => true,
+        _ => matches!(block, GraphBlock::HorizontalRule) && previous.is_paragraph(),
+    }
 }
 
 pub fn blocks_to_markdown(blocks: &Blocks, options: &MarkdownOptions) -> String {
